@@ -28,7 +28,8 @@ RULE = ('tie: for every univariate class (x constructor options: TruncatedGaussi
         'wrapper, GaussianMultivariate, bivariate families and vines; vines fitted / evaluated under numpy.empty '
         'poisoned with two different sentinels. A case is distinct by (class, options, history of dataset '
         'descriptors) and non-trivial when the history has >= 2 fits or the input is invalid.')
-PARTIAL = ['GaussianKDE keeps `_model` of an earlier non-constant fit through a constant fit and log_probability_density '
+PARTIAL = ['Props/C19b replaces the hypotheses of refit_pure_partial / unfitted_raises_partial by complete case analyses: refit_pure_iff (exact characterisation over all variants, kinds and option patterns; for the current code impure exactly for TruncatedGaussian missing a bound and GaussianKDE without truthy sample_size, with parametric counterexamples), unfitted_entry_points (a partition of every guard-table row into NotFittedError / NotImplemented / the 7 recorded finding rows / to_dict / Independence), get_instance_classes + get_instance_clone',
+           'GaussianKDE keeps `_model` of an earlier non-constant fit through a constant fit and log_probability_density '
            '(not overridden) answers from it: not a flag of the Lean model; the tie skips log pdf for a KDE after a constant '
            'fit and the refit oracle reports it (class GaussianKDE.log_probability_density:stale-model-after-constant-refit)',
            'refit_pure is false of the code as found (refit_pure_asFound_counterexample + the three situations); '
